@@ -479,6 +479,95 @@ def check_euclid(ctx, Grid, X, style, cid, g=None, tag="Grid"):
     return g
 
 
+def check_positions(ctx, g, X, cid):
+    """The grid's own account of where its nodes are (`node_coordinates`,
+    `grid()`, `boundaries()`) is the geometry the distances are taken from,
+    and `geometric_distance_distribution` is the distribution of exactly those
+    pairwise distances: every ordered pair of distinct nodes falls into the
+    bin that contains its distance."""
+    dim, n = X.shape
+    X32 = ref.f32(X).astype(np.float64)
+    case = {"X": X}
+    r = ctx.rng("pos", cid)
+    for i in sorted({0, n - 1, int(r.integers(0, n))}):
+        ok, c = ctx.call(g.node_coordinates, i)
+        ctx.evals()
+        if not ok:
+            ctx.violation(f"Grid.node_coordinates:raises:{type(c).__name__}",
+                          {**case, "i": i, "exc": repr(c)}, cid)
+            continue
+        ctx.count("position_queries")
+        c = np.asarray(c, dtype=np.float64)
+        if c.shape != (dim,) or not np.array_equal(c, X32[:, i]):
+            ctx.violation("Grid.node_coordinates:not-the-node's-position",
+                          {**case, "i": i, "returned": c}, cid)
+    ok, G = ctx.call(g.grid)
+    ctx.evals()
+    if not ok or not np.array_equal(
+            np.asarray(G["space"], dtype=np.float64), X32):
+        ctx.violation("Grid.grid:space-ne-positions", case, cid)
+    ok, B = ctx.call(g.boundaries)
+    ctx.evals()
+    if not ok:
+        ctx.violation(f"Grid.boundaries:raises:{type(B).__name__}", case, cid)
+    else:
+        ctx.count("boundary_queries")
+        lo = np.asarray(B["space_min"], dtype=np.float64)
+        hi = np.asarray(B["space_max"], dtype=np.float64)
+        Xd = np.asarray(X, dtype=np.float64)
+        tol = 2.0 ** -20 * np.maximum(1e-30, np.abs(Xd).max(axis=1))
+        if lo.shape != (dim,) or hi.shape != (dim,) \
+                or (np.abs(lo - Xd.min(axis=1)) > tol).any() \
+                or (np.abs(hi - Xd.max(axis=1)) > tol).any():
+            ctx.violation("Grid.boundaries:ne-extent-of-positions",
+                          {**case, "min": lo, "max": hi}, cid)
+        if B["time_min"] != 0 or B["time_max"] != 1:
+            ctx.violation("Grid.boundaries:time-extent",
+                          {**case, "B": repr(B)}, cid)
+    if n < 2:
+        return
+    R = ref.euclid_matrix(X)
+    if R.max() <= 0:
+        return
+    nb = int(r.integers(1, 12))
+    ok, res = ctx.call(g.geometric_distance_distribution, nb)
+    ctx.evals()
+    if not ok:
+        ctx.violation("geometric_distance_distribution:raises:"
+                      f"{type(res).__name__}",
+                      {**case, "n_bins": nb, "exc": repr(res)}, cid)
+        return
+    ctx.count("distance_distributions")
+    dist, lbb = (np.asarray(v, dtype=np.float64) for v in res)
+    dmax = R.max()
+    edges = np.linspace(0.0, dmax, nb + 1)
+    m = REL * 4 * dmax
+    off = ~np.eye(n, dtype=bool)
+    Ro = R[off]
+    pairs = float(n * (n - 1))
+    bad = dist.shape != (nb,) or len(lbb) not in (nb, nb + 1) \
+        or abs(dist.sum() - 1) > 1e-9 \
+        or (np.abs(lbb - edges[:len(lbb)]) > m).any()
+    if not bad:
+        for b in range(nb):
+            a, z = edges[b], edges[b + 1]
+            last = b == nb - 1
+            sure = ((Ro >= a + m) & (Ro < z - m)).sum() if not last \
+                else (Ro >= a + m).sum()
+            may = ((Ro >= a - m) & (Ro < z + m)).sum() if not last \
+                else (Ro >= a - m).sum()
+            c = dist[b] * pairs
+            if not sure - 1e-6 <= c <= may + 1e-6:
+                bad = True
+                case = {**case, "bin": b, "lib_pairs": c, "sure": int(sure),
+                        "possible": int(may)}
+                break
+    if bad:
+        ctx.violation("geometric_distance_distribution:ne-distribution-of-"
+                      "pair-distances",
+                      {**case, "n_bins": nb, "dist": dist, "lbb": lbb}, cid)
+
+
 def check_lookup_euclid(ctx, g, X, cid, nq):
     r = ctx.rng("qe", cid)
     dim, n = X.shape
@@ -1101,6 +1190,7 @@ def run(ctx):
             g = check_euclid(ctx, Grid, X, style, cid)
             if g is not None:
                 check_lookup_euclid(ctx, g, X, cid, 6)
+                check_positions(ctx, g, X, cid)
 
     # 3. rectangular grids: exhaustive small shapes, then random axes
     idx = 0
